@@ -4,6 +4,7 @@ import (
 	"fmt"
 	"sort"
 	"strings"
+	"unicode/utf8"
 
 	"github.com/alecthomas/participle/v2/lexer"
 	"github.com/alecthomas/participle/v2/simrt"
@@ -124,6 +125,23 @@ func runRobustLex(rc *RunCtx) *Violation {
 			var fired []string
 			d, fired = deriveInput(rc, x, hotOffsets(def, x), allContentFaults)
 			faultKinds = append(faultKinds, fired...)
+		}
+		if len(x) > 0 && simrt.Choose(bound(60, 25)) == 1 {
+			// an input larger than any internal buffer, with one very long run across a power-of-two offset
+			target := []int{40000, 70000, 140000}[simrt.Choose(3)]
+			big := strings.Repeat(x+"\n", 1+target/(len(x)+1))
+			seam := []int{32768, 65536, 131072}[simrt.Choose(3)]
+			if seam < len(big)-16 {
+				run := 4200 + simrt.Choose(5000)
+				at := seam - simrt.Choose(run)
+				for at > 0 && !utf8.RuneStart(big[at]) {
+					at--
+				}
+				big = big[:at] + strings.Repeat([]string{"a", "é", "7"}[simrt.Choose(3)], run) + big[at:]
+			}
+			d = big
+			rc.fault("huge-input")
+			faultKinds = append(faultKinds, "huge")
 		}
 		s := &lexSession{tag: fmt.Sprintf("%s#%d", defName, i), d: d, wantPost: simrt.Choose(6)}
 		viol := func(clause, detail string) *Violation {
